@@ -716,6 +716,7 @@ func runDec(out *outw) {
 	cases := vfd.ReadCases(vfd.Env("VF_CASES", "cases.ndjson"))
 	from := vfd.EnvInt("VF_FROM", 0)
 	var ms runtime.MemStats
+	gross, maxGross := 0, vfd.EnvInt("VF_MAX_GROSS", 25)
 	for i, c := range cases {
 		if i < from {
 			continue
@@ -741,6 +742,9 @@ func runDec(out *outw) {
 		p, msg := vfd.Guard(func() { consumed, err = decode(ty, buf, q) })
 		runtime.ReadMemStats(&ms)
 		rec["alloc"] = vfd.U64LE(ms.TotalAlloc - a0)
+		if p || ms.TotalAlloc-a0 > 256<<20 {
+			gross++
+		}
 		if p {
 			rec["panic"] = "panic: " + msg
 		} else if err != nil {
@@ -761,6 +765,12 @@ func runDec(out *outw) {
 			}
 		}
 		out.Emit(rec)
+		// Enough is enough: after many panics / gross over-allocations the verdict is settled and every further
+		// such case costs seconds (gigabytes are really allocated); the remaining cases are reported as not run.
+		if gross >= maxGross {
+			out.Emit(map[string]any{"op": "stopped", "i": i, "ty": ty, "left": len(cases) - i - 1})
+			return
+		}
 	}
 }
 
